@@ -9,7 +9,7 @@ R18.4 create_frames attaches each target under its centre and bridges the Earth 
 import ast
 
 from .. import terms as T
-from ..frozen import compare
+from ..frozen import compare, compare_formulas
 from ..model import AnalysisError, body_without_doc, loc, unparse
 from ..terms import Extract, Poly
 from .common import Origins, date_reads_in
@@ -62,6 +62,7 @@ def r18_2(chk):
     ok = "return Orbit(state_vector, date, 'cartesian', cls.FRAME, cls())".replace("date", f.params()[1]) in t
     chk.inst("R18.2", f"{f.ref}::result", ok, "cartesian state in the propagator's frame" if ok else "changed", loc(f, f.node))
     compare(chk, "R18.2", f"{SOL}::MoonPropagator._propagate", f.node, loc(f, f.node), "low-precision lunar series, Astronomical Almanac / Vallado alg. 31")
+    compare_formulas(chk, "R18.2", f"{SOL}::MoonPropagator._propagate", f.node, loc(f, f.node), "lunar series")
     # Sun
     g = repo.func(SOL, "SunPropagator._propagate")
     pv = None
@@ -77,6 +78,7 @@ def r18_2(chk):
         ok = T.equal(pv[i], want[i])
         chk.obl("R18.2", f"{g.ref}::component[{i}]", ok, "ecliptic longitude rotated by the obliquity; distance in AU → metres" if ok else f"{T.fmt(pv[i])} != {T.fmt(want[i])}", loc(g, g.node))
     compare(chk, "R18.2", f"{SOL}::SunPropagator._propagate", g.node, loc(g, g.node), "low-precision solar series, Vallado alg. 29")
+    compare_formulas(chk, "R18.2", f"{SOL}::SunPropagator._propagate", g.node, loc(g, g.node), "solar series")
     au = repo.module("beyond/utils/units.py").assigns.get("AU")
     ok = au is not None and unparse(au) in ("149597870700.0", "149597870700")
     chk.inst("R18.2", "beyond/utils/units.py::AU", ok, "AU = 149 597 870 700 m" if ok else f"AU = {unparse(au) if au is not None else None}", "beyond/utils/units.py")
